@@ -83,9 +83,65 @@ MODELS = {
     '@vp_throw_now': dict(c='vp_throw_now', kind='pure'),
     '@vp_mutex_owner': dict(c='vp_mutex_owner_of', kind='pure'),
     '@vp_rw_state': dict(c='vp_rw_state_of', kind='pure'),
-    '@vp_blockcount': dict(c='vp_blockcount', kind='pure'),
+    '@vp_blockcount': dict(c='vp_blockcount', kind='pure'), '@vp_cvwaits': dict(c='vp_cvwaits', kind='pure'),
     '@vp_hb_data_write': dict(c='vp_hb_data_write', kind='pure'), '@vp_hb_data_read': dict(c='vp_hb_data_read', kind='pure'),
 }
+
+
+def block_order(X):
+    """Reverse post-order of the CFG with loop bodies kept before loop exits, so that the only backward gotos in the
+    generated C are real loop back edges (cbmc unwinds every backward goto; a layout-induced backward jump would
+    multiply the cost of every invocation by the unwinding bound)."""
+    succ = {b: [] for b in X.blocks}
+    for b, il in X.blocks.items():
+        for i in il:
+            for t in successors(i):
+                if t not in succ[b]: succ[b].append(t)
+    # Tarjan SCC (iterative)
+    index = {}; low = {}; onst = set(); st = []; comp = {}; cnt = [0]; ncomp = [0]
+    def strong(v0):
+        work = [(v0, 0)]
+        while work:
+            v, pi = work.pop()
+            if pi == 0:
+                index[v] = low[v] = cnt[0]; cnt[0] += 1; st.append(v); onst.add(v)
+            recurse = False
+            for k in range(pi, len(succ[v])):
+                w = succ[v][k]
+                if w not in index:
+                    work.append((v, k + 1)); work.append((w, 0)); recurse = True; break
+                elif w in onst: low[v] = min(low[v], index[w])
+            if recurse: continue
+            if low[v] == index[v]:
+                while True:
+                    w = st.pop(); onst.discard(w); comp[w] = ncomp[0]
+                    if w == v: break
+                ncomp[0] += 1
+            if work:
+                u = work[-1][0]
+                low[u] = min(low[u], low[v])
+    strong(X.entry)
+    compsize = collections.Counter(comp.values())
+    seen = set(); post = []
+    stack = [(X.entry, None)]
+    # iterative DFS; visit successors that leave the current SCC first (they end up later in RPO)
+    def ordered(v):
+        ss = succ[v]
+        inside = [w for w in ss if comp.get(w) == comp.get(v) and compsize[comp[v]] > 1]
+        outside = [w for w in ss if w not in inside]
+        return outside + inside
+    it = {}
+    seen.add(X.entry); path = [X.entry]; it[X.entry] = iter(ordered(X.entry))
+    while path:
+        v = path[-1]
+        nxt = None
+        for w in it[v]:
+            if w not in seen: nxt = w; break
+        if nxt is None:
+            post.append(v); path.pop()
+        else:
+            seen.add(nxt); it[nxt] = iter(ordered(nxt)); path.append(nxt)
+    return list(reversed(post))
 
 
 def san(name):
@@ -351,9 +407,7 @@ class FuncEmitter:
         for b, il in X.blocks.items():
             for i in il:
                 if i.op == 'phi': s.phis[b].append(i)
-        order = list(X.blocks.keys())
-        # entry block first
-        order.remove(X.entry); order.insert(0, X.entry)
+        order = block_order(X)
         for b in order:
             s.out.append(('L', s.L(b)))
             for idx, i in enumerate(X.blocks[b]):
